@@ -32,6 +32,8 @@ type Node struct {
 	Dir   string
 	Port  int
 	Parts int
+
+	keepDir bool
 }
 
 func Silence() {
@@ -42,8 +44,23 @@ func Silence() {
 	wal.VerifSilence()
 }
 
+// Opts for a single-node server.
+type Opts struct {
+	Port, Parts int
+	Dir         string
+	Engine      string // mem (default), pebble, rocksdb
+	SnapCount   int    // default 100000
+	KeepBackup  int    // default 2
+	KeepDir     bool   // Stop() leaves the directory
+}
+
 // Start a single-node server with `parts` partitions of namespace "default" (replicator 1).
 func Start(basePort, parts int, dir string) (*Node, error) {
+	return StartWith(Opts{Port: basePort, Parts: parts, Dir: dir})
+}
+
+func StartWith(o Opts) (*Node, error) {
+	basePort, parts, dir := o.Port, o.Parts, o.Dir
 	if dir == "" {
 		d, err := ioutil.TempDir("/dev/shm", "zrverif-srv-")
 		if err != nil {
@@ -51,13 +68,22 @@ func Start(basePort, parts int, dir string) (*Node, error) {
 		}
 		dir = d
 	}
+	if o.Engine == "" {
+		o.Engine = "mem"
+	}
+	if o.SnapCount == 0 {
+		o.SnapCount = 100000
+	}
+	if o.KeepBackup == 0 {
+		o.KeepBackup = 2
+	}
 	os.MkdirAll(dir, 0o755)
 	ioutil.WriteFile(path.Join(dir, "myid"), []byte("1"), 0o644)
 	engine.VerifSetMemType(0)
 	raftAddr := fmt.Sprintf("http://127.0.0.1:%d", basePort+2)
 	conf := server.ServerConfig{ClusterID: "verif", DataDir: dir, RedisAPIPort: basePort, HttpAPIPort: basePort + 1, LocalRaftAddr: raftAddr,
-		BroadcastAddr: "127.0.0.1", TickMs: 20, ElectionTick: 5, KeepBackup: 2, KeepWAL: 2}
-	conf.RocksDBOpts.EngineType = "mem"
+		BroadcastAddr: "127.0.0.1", TickMs: 20, ElectionTick: 5, KeepBackup: o.KeepBackup, KeepWAL: 2}
+	conf.RocksDBOpts.EngineType = o.Engine
 	srv, err := server.NewServer(conf)
 	if err != nil {
 		return nil, err
@@ -71,7 +97,7 @@ func Start(basePort, parts int, dir string) (*Node, error) {
 		ns.EngType = rockredis.EngType
 		ns.PartitionNum = parts
 		ns.Replicator = 1
-		ns.SnapCount = 100000
+		ns.SnapCount = o.SnapCount
 		ns.ExpirationPolicy = common.WaitCompactExpirationPolicy
 		ns.DataVersion = common.ValueHeaderV1Str
 		ns.RaftGroupConf.GroupID = uint64(1000 + i)
@@ -81,8 +107,8 @@ func Start(basePort, parts int, dir string) (*Node, error) {
 		}
 	}
 	srv.Start()
-	n := &Node{Srv: srv, Dir: dir, Port: basePort, Parts: parts}
-	deadline := time.Now().Add(30 * time.Second)
+	n := &Node{Srv: srv, Dir: dir, Port: basePort, Parts: parts, keepDir: o.KeepDir}
+	deadline := time.Now().Add(60 * time.Second)
 	for {
 		ready := 0
 		for i := 0; i < parts; i++ {
@@ -95,16 +121,18 @@ func Start(basePort, parts int, dir string) (*Node, error) {
 			break
 		}
 		if time.Now().After(deadline) {
-			return nil, fmt.Errorf("server not ready after 30s (%d/%d partitions)", ready, parts)
+			return nil, fmt.Errorf("server not ready after 60s (%d/%d partitions)", ready, parts)
 		}
-		time.Sleep(10 * time.Millisecond)
+		time.Sleep(5 * time.Millisecond)
 	}
 	return n, nil
 }
 
 func (n *Node) Stop() {
 	n.Srv.Stop()
-	os.RemoveAll(n.Dir)
+	if !n.keepDir {
+		os.RemoveAll(n.Dir)
+	}
 }
 
 // PartDump: physical dump of one partition's engine (minus per-table counters).
